@@ -8,10 +8,6 @@ open Spec
 
 namespace Elements
 
-def valueAt (es : Elements) (n : Bytes) : Q := match List.find? (fun x => x.name == n) es with
-  | some x => x.value
-  | none => 0
-
 theorem names_addTo (es : Elements) (n : Bytes) (v : Q) :
     names (addTo es n v) = if n ∈ names es then names es else names es ++ [n] := by
   induction es with
